@@ -193,6 +193,11 @@ class RunningFailureMonitor(Monitor):
         previous = [s for t, n, s in history[:-1] if n == ev['inst']]
         if not previous or previous[-1] != 20:
             return
+        # another copy still runs (a conflict): for Supvisors the process has not crashed
+        w = self.run.world
+        if any(i.nick != ev['inst'] and i.running_truth().get(namespec) in RUN_CODES for i in w.live()):
+            self.count('crashes_of_one_copy_among_several')
+            return
         record = {'t': ev['t'], 'namespec': namespec, 'on': ev['inst'], 'strategy': strategy, 'state': ev['state']}
         self.crashes.append(record)
         self.count('running_crashes_with_application_strategy')
